@@ -702,8 +702,9 @@ def plan_uvl_peer(seed, tier):
                      tags=tags + ["invalid." + why], expect={"kind": "raise", "why": why})
                 style = rng.choice(["abs", "rel"])
                 b.op(op="READ", fmt="uvl", path=path, pathstyle=style)
-                if rng.random() < 0.3:      # a retry on the same reader object must fail too
-                    b.op(op="READ", fmt="uvl", path=path, pathstyle=style, reader="reuse")
+                _retry_after_rejected(b, rng, "uvl", path, style, text,
+                                      {"kind": "model", "ref": rm.project("uvl", ref),
+                                       "facets": UVL_FACETS}, "C04", tags)
             else:
                 # media damage: whatever comes back must be an error or a well-formed model
                 b.op(op="PUT", path=path, fmt="uvl", b64=_b64(text), prop="C04", tags=tags,
@@ -853,6 +854,9 @@ def plan_third_party(seed, tier):
                      tags=tags + ["invalid.unsupported_constraint"],
                      expect={"kind": "raise", "why": "unrepresentable"})
                 b.op(op="READ", fmt=fmt, path=path, pathstyle="abs")
+                _retry_after_rejected(b, rng, fmt, path, "abs", text,
+                                      {"kind": "model", "ref": rm.project(fmt, ref),
+                                       "facets": facets}, "C09", tags)
             elif kind == "fide" and rng.random() < 0.12:
                 # a construct the metamodel cannot hold (FeatureIDE's atmost1 / choose1 rules, or
                 # an element that is no rule at all): the reader has to refuse the document
@@ -873,6 +877,9 @@ def plan_third_party(seed, tier):
                      tags=tags + ["invalid.unrepresentable_rule"],
                      expect={"kind": "raise", "why": "unrepresentable"})
                 b.op(op="READ", fmt=fmt, path=path, pathstyle="abs")
+                _retry_after_rejected(b, rng, fmt, path, "abs", text,
+                                      {"kind": "model", "ref": rm.project(fmt, ref),
+                                       "facets": facets}, "C09", tags)
             elif k < 0.65:
                 b.op(op="PUT", path=path, fmt=fmt, b64=_b64(text), prop="C09", tags=tags,
                      expect={"kind": "model", "ref": rm.project(fmt, ref), "facets": facets})
@@ -895,6 +902,9 @@ def plan_third_party(seed, tier):
                      tags=tags + ["invalid.cut_inside_statement"],
                      expect={"kind": "raise", "why": "cut_inside_statement"})
                 b.op(op="READ", fmt=fmt, path=path, pathstyle="abs")
+                _retry_after_rejected(b, rng, fmt, path, "abs", text,
+                                      {"kind": "model", "ref": rm.project(fmt, ref),
+                                       "facets": facets}, "C09", tags)
             elif k < 0.85 and fmt in ("fide", "xml", "glencoe"):
                 data = text.encode("utf-8")
                 body = data.rstrip()
@@ -903,6 +913,9 @@ def plan_third_party(seed, tier):
                      tags=tags + ["invalid.strict_prefix"],
                      expect={"kind": "raise", "why": "strict_prefix"})
                 b.op(op="READ", fmt=fmt, path=path, pathstyle="abs")
+                _retry_after_rejected(b, rng, fmt, path, "abs", text,
+                                      {"kind": "model", "ref": rm.project(fmt, ref),
+                                       "facets": facets}, "C09", tags)
             else:
                 b.op(op="PUT", path=path, fmt=fmt, b64=_b64(text), prop="C09", tags=tags,
                      expect={"kind": "any"})
@@ -942,6 +955,20 @@ def _same_size_variant(b, rng, kind, fmt, frag, facets, ref, pool, cfg, path, ta
                  expect={"kind": "model", "ref": rm.project(fmt, new), "facets": facets})
             b.op(op="READ", fmt=fmt, path=path, pathstyle="abs")
             return
+
+
+def _retry_after_rejected(b, rng, fmt, path, style, good_text, good_expect, prop, tags):
+    """A rejected document is asked for again on the same reader object (it must be rejected
+    again), and in some runs the complete document is then put at the path and the same reader
+    object asked once more: it has to return the complete model, not what it kept from the
+    attempt that failed."""
+    j = rng.random()
+    if j < 0.35:
+        b.op(op="READ", fmt=fmt, path=path, pathstyle=style, reader="reuse")
+    if j < 0.18 or j > 0.9:
+        b.op(op="PUT", path=path, fmt=fmt, b64=_b64(good_text), prop=prop,
+             tags=tags + ["hist.repaired_after_rejection"], expect=good_expect)
+        b.op(op="READ", fmt=fmt, path=path, pathstyle=style, reader="reuse")
 
 
 def _prefix_names(expr, prefix):
